@@ -431,6 +431,11 @@ func numClaim(m map[string]interface{}, k string) (byte, int64, float64) {
 		return 'a', 0, 0
 	}
 	if f, ok := v.(float64); ok {
+		// a number of seconds that no int64 holds is not a timestamp (and Go's float-to-int
+		// conversion of it is implementation-defined): malformed, like a string
+		if f != f || f >= 9223372036854775808.0 || f < -9223372036854775808.0 {
+			return 'b', 0, f
+		}
 		return 'n', int64(f), f
 	}
 	return 'b', 0, 0
